@@ -111,9 +111,12 @@ MUTANTS = [
     ("m18b", ["C18"], "schema validation no longer rooted", [(MA, '''    schema.setdefault("$ref", "#/definitions/MetaModel")''', '''    pass''')], None),
     ("m18c", ["C18"], "merge forgets the enumerations of later files", [(MO, '''            spec.enumerations.extend(addition.enumerations)
 ''', '')], None),
-    ("m19a", ["C19"], "resolution lock removed", [(H, '''    with _resolve_lock:
+    # (removing the lock alone has no observable effect any more since resolution works on a copy of the registry: both
+    #  threads then resolve everything themselves; the mutant also announces completion before the work is done)
+    ("m19a", ["C19"], "resolution lock removed, flag set before the work", [(H, '''    with _resolve_lock:
         if not _resolved_forward_references:''', '''    if True:
-        if not _resolved_forward_references:''')], None),
+        if not _resolved_forward_references:
+            _resolved_forward_references = True''')], None),
     ("m19b", ["C19"], "union hooks delegate to the first converter ever created", [
         (H, '''def _register_capabilities_hooks(converter: cattrs.Converter) -> cattrs.Converter:
 ''', '''_SHARED = []
